@@ -115,100 +115,226 @@ func fixOrder(rel string) func() string {
 	}
 }
 
-// hashCheckFlag: does getByHash compare the SHA-256 of the bytes it got (from the cache and from the storage) with the
-// hash it looked up, before returning or caching them? Recognised form (the fix proposed for the C14 finding):
+// hashCheckFlag: does getByHash compare the SHA-256 of the bytes it got (from the cache or from the storage) with the
+// hash it looked up, before returning or caching them?
 //
-//	if err := checkIssuanceChainHash(hash, chain); err != nil { return nil, err }
-//
-// as an earlier statement of the block of every `return chain, …` and of the `go` statement that fills the cache, with
-// a helper whose body is the comparison `!bytes.Equal(issuanceChainHash(chain), hash)` -> error. No such statement at
-// all: flag false (the tree as found). Some returns covered and others not: the unit fails.
+// Anchored on calls and data flow, not on statement text or local names: the chain variable is whatever receives the
+// result of `….cache.Get(…)`, the hash is the function's last parameter. The body is walked path by path with one bit of
+// state, "the current value of the chain variable has passed `checkIssuanceChainHash(hash, chain)`" (a call whose non-nil
+// error makes the function return); an assignment to the chain variable clears the bit, branches are joined with AND
+// (a branch that returns does not take part). Every `return chain, …` and every `go` statement (the detached cache fill)
+// must be reached with the bit set. No check call at all: flag false (the tree as found). Some uses covered and others
+// not: the unit fails.
 func hashCheckFlag(rel string) func() string {
 	return func() string {
 		fd := mustFunc(rel, "indirectIssuanceChainService.getByHash")
-		isCheck := func(st ast.Stmt) bool {
-			is, ok := st.(*ast.IfStmt)
-			if !ok || is.Init == nil || is.Else != nil {
+		params := fd.Type.Params.List
+		hashVar := params[len(params)-1].Names[len(params[len(params)-1].Names)-1].Name
+		chainVar := ""
+		ast.Inspect(fd.Body, func(n ast.Node) bool {
+			if as, ok := n.(*ast.AssignStmt); ok && chainVar == "" && len(as.Rhs) == 1 && strings.HasSuffix(callName(as.Rhs[0]), ".cache.Get") {
+				if id, ok := as.Lhs[0].(*ast.Ident); ok {
+					chainVar = id.Name
+				}
+			}
+			return true
+		})
+		if chainVar == "" {
+			panic(bail{rel + ": getByHash no longer reads the cache with ….cache.Get"})
+		}
+		isCheckCall := func(e ast.Expr) bool {
+			c, ok := e.(*ast.CallExpr)
+			return ok && src(c.Fun) == "checkIssuanceChainHash" && len(c.Args) == 2 && src(c.Args[0]) == hashVar && src(c.Args[1]) == chainVar
+		}
+		returnsErr := func(b *ast.BlockStmt) bool {
+			if len(b.List) == 0 {
 				return false
 			}
-			return src(is.Init) == "err := checkIssuanceChainHash(hash, chain)" && src(is.Cond) == "err != nil" &&
-				len(is.Body.List) == 1 && src(is.Body.List[0]) == "return nil, err"
+			r, ok := b.List[len(b.List)-1].(*ast.ReturnStmt)
+			return ok && len(r.Results) == 2 && src(r.Results[1]) != "nil"
+		}
+		terminates := func(list []ast.Stmt) bool {
+			if len(list) == 0 {
+				return false
+			}
+			_, ok := list[len(list)-1].(*ast.ReturnStmt)
+			return ok
 		}
 		covered, uncovered, checks := 0, 0, 0
-		var walk func(list []ast.Stmt)
-		walk = func(list []ast.Stmt) {
-			seen := false
-			for _, st := range list {
-				if isCheck(st) {
-					seen = true
-					checks++
-					continue
-				}
-				switch x := st.(type) {
-				case *ast.ReturnStmt:
-					if len(x.Results) > 0 && src(x.Results[0]) == "chain" {
-						if seen {
-							covered++
-						} else {
-							uncovered++
-						}
-					}
-				case *ast.GoStmt:
-					if seen {
-						covered++
-					} else {
-						uncovered++
-					}
-				case *ast.IfStmt:
-					// a nested block inherits nothing: the check must be in the same block as the return
-					walk(x.Body.List)
-					if e, ok := x.Else.(*ast.BlockStmt); ok {
-						walk(e.List)
-					}
-				case *ast.BlockStmt:
-					walk(x.List)
-				}
+		use := func(ok bool) {
+			if ok {
+				covered++
+			} else {
+				uncovered++
 			}
 		}
-		walk(fd.Body.List)
+		var walk func(list []ast.Stmt, checked bool) bool
+		walk = func(list []ast.Stmt, checked bool) bool {
+			pendingErrCheck := false // `err = checkIssuanceChainHash(...)` seen, waiting for `if err != nil { return }`
+			for _, st := range list {
+				switch x := st.(type) {
+				case *ast.AssignStmt:
+					if len(x.Rhs) == 1 && isCheckCall(x.Rhs[0]) {
+						pendingErrCheck = true
+						continue
+					}
+					for _, l := range x.Lhs {
+						if src(l) == chainVar {
+							checked = false
+						}
+					}
+				case *ast.IfStmt:
+					if as, ok := x.Init.(*ast.AssignStmt); ok && len(as.Rhs) == 1 && isCheckCall(as.Rhs[0]) && src(x.Cond) == "err != nil" && returnsErr(x.Body) && x.Else == nil {
+						checked = true
+						checks++
+						continue
+					}
+					if pendingErrCheck && x.Init == nil && src(x.Cond) == "err != nil" && returnsErr(x.Body) && x.Else == nil {
+						checked, pendingErrCheck = true, false
+						checks++
+						continue
+					}
+					thenState := walk(x.Body.List, checked)
+					out := []bool{}
+					if !terminates(x.Body.List) {
+						out = append(out, thenState)
+					}
+					switch e := x.Else.(type) {
+					case nil:
+						out = append(out, checked)
+					case *ast.BlockStmt:
+						es := walk(e.List, checked)
+						if !terminates(e.List) {
+							out = append(out, es)
+						}
+					case *ast.IfStmt:
+						es := walk([]ast.Stmt{e}, checked)
+						out = append(out, es)
+					}
+					checked = len(out) > 0
+					for _, o := range out {
+						checked = checked && o
+					}
+				case *ast.BlockStmt:
+					checked = walk(x.List, checked)
+				case *ast.ReturnStmt:
+					if len(x.Results) > 0 && src(x.Results[0]) == chainVar {
+						use(checked)
+					}
+				case *ast.GoStmt:
+					use(checked)
+				case *ast.SwitchStmt, *ast.ForStmt, *ast.RangeStmt, *ast.SelectStmt, *ast.TypeSwitchStmt, *ast.LabeledStmt, *ast.BranchStmt:
+					failf(st, "getByHash left the analysed subset (%T)", st)
+				}
+				pendingErrCheck = false
+			}
+			return checked
+		}
+		walk(fd.Body.List, false)
 		flag := false
 		switch {
 		case checks == 0:
 		case uncovered == 0 && covered > 0:
 			h := findFunc(parseFile(rp(rel)), "checkIssuanceChainHash")
-			if h == nil {
-				panic(bail{rel + ": checkIssuanceChainHash not found"})
+			if h == nil || h.Type.Params.NumFields() != 2 {
+				panic(bail{rel + ": checkIssuanceChainHash(hash, chain) not found"})
 			}
-			body := src(h.Body)
-			if !strings.Contains(body, "if !bytes.Equal(issuanceChainHash(chain), hash) { return fmt.Errorf(") || !strings.HasSuffix(body, "return nil }") {
-				panic(bail{rel + ": checkIssuanceChainHash is not the recognised comparison: " + body})
+			var pn []string
+			for _, f := range h.Type.Params.List {
+				for _, n := range f.Names {
+					pn = append(pn, n.Name)
+				}
+			}
+			ok := false
+			if len(h.Body.List) == 2 {
+				is, isIf := h.Body.List[0].(*ast.IfStmt)
+				if isIf && is.Init == nil && is.Else == nil && returnsErrOnly(is.Body) && src(h.Body.List[1]) == "return nil" {
+					cond := strings.ReplaceAll(src(is.Cond), " ", "")
+					a1 := "!bytes.Equal(issuanceChainHash(" + pn[1] + ")," + pn[0] + ")"
+					a2 := "!bytes.Equal(" + pn[0] + ",issuanceChainHash(" + pn[1] + "))"
+					ok = cond == a1 || cond == a2
+				}
+			}
+			if !ok {
+				panic(bail{rel + ": checkIssuanceChainHash is not the recognised comparison: " + src(h.Body)})
 			}
 			ih := findFunc(parseFile(rp(rel)), "issuanceChainHash")
-			if ih == nil || !strings.Contains(src(ih.Body), "sha256.Sum256(chain)") {
-				panic(bail{rel + ": issuanceChainHash is no longer sha256.Sum256(chain)"})
+			if ih == nil || !strings.Contains(src(ih.Body), "sha256.Sum256(") {
+				panic(bail{rel + ": issuanceChainHash is no longer SHA-256"})
 			}
 			flag = true
 		default:
 			panic(bail{fmt.Sprintf("%s: getByHash checks the hash on %d of its %d ways of handing out / caching a chain", rel, covered, covered+uncovered)})
 		}
-		return fmt.Sprintf("/-- generated from %s func getByHash: every `return chain, …` and the detached cache fill come after\n`if err := checkIssuanceChainHash(hash, chain); err != nil { return nil, err }` (helper: `!bytes.Equal(issuanceChainHash(chain), hash)` ⇒ error) -/\ndef getByHashVerifiesHash : Bool := %v\n", rel, flag)
+		return fmt.Sprintf("/-- generated from %s func getByHash (path analysis): every `return <chain>, …` and the detached cache fill are reached only\nafter `checkIssuanceChainHash(<hash>, <chain>)` succeeded on the current bytes (helper: `!bytes.Equal(issuanceChainHash(chain), hash)` ⇒ error) -/\ndef getByHashVerifiesHash : Bool := %v\n", rel, flag)
 	}
 }
 
+func returnsErrOnly(b *ast.BlockStmt) bool {
+	if len(b.List) != 1 {
+		return false
+	}
+	r, ok := b.List[0].(*ast.ReturnStmt)
+	return ok && len(r.Results) == 1 && src(r.Results[0]) != "nil"
+}
+
 // buildCheckFlag: does the external-storage BuildLogLeaf refuse a chain whose extra data cannot be TLS-encoded, before it
-// stores anything? Recognised form (the fix proposed for the C14 "poisoned range" finding), as a top-level statement before
-// the one that calls s.add:  if _, err := util.ExtraDataForChain(raw[0], raw[1:], isPrecert); err != nil { return nil, … }
+// stores anything? Anchored on the calls, with local aliases resolved (`x := raw[0]`, `y := raw[1:]` hoisted out are the
+// same thing): a top-level `if _, err := util.ExtraDataForChain(<leaf>, <rest>, isPrecert); err != nil { return nil, … }`
+// before the statement that calls `s.add`, where <leaf> / <rest> resolve to element 0 / the tail of the result of
+// extractRawCerts, and the later calls use the same two things: asn1.Marshal(<rest>) and BuildLogLeafWithChainHash(…, <leaf>, …).
 func buildCheckFlag(rel string) func() string {
 	return func() string {
 		fd := mustFunc(rel, "indirectIssuanceChainService.BuildLogLeaf")
+		alias := map[string]string{}
+		rawVar := ""
+		resolve := func(e ast.Expr) string {
+			t := strings.ReplaceAll(src(e), " ", "")
+			for i := 0; i < 4; i++ {
+				if v, ok := alias[t]; ok {
+					t = v
+				}
+			}
+			return t
+		}
+		for _, st := range fd.Body.List {
+			as, ok := st.(*ast.AssignStmt)
+			if !ok || len(as.Lhs) != len(as.Rhs) {
+				continue
+			}
+			for i := range as.Lhs {
+				id, ok := as.Lhs[i].(*ast.Ident)
+				if !ok {
+					continue
+				}
+				if callName(as.Rhs[i]) == "extractRawCerts" {
+					rawVar = id.Name
+					continue
+				}
+				switch as.Rhs[i].(type) {
+				case *ast.IndexExpr, *ast.SliceExpr, *ast.Ident:
+					alias[id.Name] = resolve(as.Rhs[i])
+				}
+			}
+		}
+		if rawVar == "" {
+			panic(bail{rel + ": indirect BuildLogLeaf no longer calls extractRawCerts"})
+		}
+		leaf, rest := rawVar+"[0]", rawVar+"[1:]"
 		checkAt, addAt := -1, -1
 		for i, st := range fd.Body.List {
-			if is, ok := st.(*ast.IfStmt); ok && is.Init != nil && src(is.Init) == "_, err := util.ExtraDataForChain(raw[0], raw[1:], isPrecert)" {
-				if src(is.Cond) != "err != nil" || is.Else != nil || len(is.Body.List) != 1 || !strings.HasPrefix(src(is.Body.List[0]), "return nil, ") || src(is.Body.List[0]) == "return nil, nil" {
-					failf(is, "unrecognised encoding check")
-				}
-				if checkAt < 0 {
-					checkAt = i
+			if is, ok := st.(*ast.IfStmt); ok && is.Init != nil {
+				if as, ok := is.Init.(*ast.AssignStmt); ok && len(as.Rhs) == 1 && callName(as.Rhs[0]) == "util.ExtraDataForChain" {
+					c := as.Rhs[0].(*ast.CallExpr)
+					if len(c.Args) != 3 || resolve(c.Args[0]) != leaf || resolve(c.Args[1]) != rest || src(c.Args[2]) != "isPrecert" {
+						failf(is, "encoding check on other arguments than (leaf, rest of the chain, isPrecert)")
+					}
+					if src(is.Cond) != "err != nil" || is.Else != nil || len(is.Body.List) != 1 || !strings.HasPrefix(src(is.Body.List[0]), "return nil, ") || src(is.Body.List[0]) == "return nil, nil" {
+						failf(is, "unrecognised encoding check")
+					}
+					if checkAt < 0 {
+						checkAt = i
+					}
 				}
 			}
 			if addAt < 0 && strings.Contains(src(st), "s.add(ctx, ") {
@@ -221,7 +347,29 @@ func buildCheckFlag(rel string) func() string {
 		if checkAt > addAt {
 			panic(bail{rel + ": the encoding check comes after the chain has been stored"})
 		}
-		return fmt.Sprintf("/-- generated from %s func indirectIssuanceChainService.BuildLogLeaf: before `s.add`, the chain is refused unless\n`util.ExtraDataForChain(raw[0], raw[1:], isPrecert)` (the in-backend extra data) can be encoded -/\ndef indirectBuildChecksEncoding : Bool := %v\n", rel, checkAt >= 0)
+		// what is stored / built later is the same leaf and rest
+		same := 0
+		ast.Inspect(fd.Body, func(n ast.Node) bool {
+			c, ok := n.(*ast.CallExpr)
+			if !ok {
+				return true
+			}
+			switch src(c.Fun) {
+			case "asn1.Marshal":
+				if len(c.Args) == 1 && resolve(c.Args[0]) == rest {
+					same++
+				}
+			case "util.BuildLogLeafWithChainHash":
+				if len(c.Args) == 6 && resolve(c.Args[3]) == leaf {
+					same++
+				}
+			}
+			return true
+		})
+		if same != 2 {
+			panic(bail{rel + ": indirect BuildLogLeaf does not store asn1.Marshal(rest of the chain) / build the leaf from element 0"})
+		}
+		return fmt.Sprintf("/-- generated from %s func indirectIssuanceChainService.BuildLogLeaf (local aliases resolved): before `s.add`, the chain is\nrefused unless `util.ExtraDataForChain(leaf, rest, isPrecert)` — the in-backend extra data of the same leaf and rest that are stored — can be encoded -/\ndef indirectBuildChecksEncoding : Bool := %v\n", rel, checkAt >= 0)
 	}
 }
 
